@@ -5,12 +5,15 @@ earlier (seeded) history is updated with seeded new arguments - including ones t
 predicates and change Scan/Vmap inputs - and a seeded constraint subset; both gf.update and the
 Trace.update convenience; round trip update -> update-back with the discard.
 """
-from sim import gfi, ref, tracemachine as tm
+from sim import gfi, ref, tracemachine as tm, bare
 
 PROP = "C03"
 
 
 def gen_case(rng, tier):
+    if rng.random() < 0.12:
+        # a bare Distribution / Vmap-of-Distribution used directly through the GFI (sim/bare.py)
+        return bare.gen_case(rng, tier, "update")
     c = gfi.gen_model_case(rng, tier, shared_cond=None)
     paths = ref.model_paths(c["model"])
     ops = [{"op": "init", "how": rng.choice(["simulate", "generate"]), "key": rng.randint(0, 2**30),
@@ -32,7 +35,10 @@ def gen_case(rng, tier):
 
 
 def run_case(case):
+    if "bare" in case:
+        return bare.run_case(case)
     return tm.run_history(case)
 
 
-shrink = tm.shrink_history
+def shrink(case):
+    return bare.shrink(case) if "bare" in case else tm.shrink_history(case)
